@@ -67,7 +67,7 @@ func (g *GRE) DecodeFromBytes(data []byte, df gopacket.DecodeFeedback) error {
 	g.StrictSourceRoute = data[0]&0x08 != 0
 	g.AckPresent = data[1]&0x80 != 0
 	g.RecursionControl = data[0] & 0x7
-	g.Flags = data[1] >> 3
+	g.Flags = (data[1] >> 3) & 0xf // without the acknowledgment bit, which is AckPresent
 	g.Version = data[1] & 0x7
 	g.Protocol = EthernetType(binary.BigEndian.Uint16(data[2:4]))
 	offset := 4
